@@ -156,11 +156,10 @@ func (u *Upstream) closeWithError(ctx context.Context, causeError error, opts ..
 		v(&opt)
 	}
 
-	state := u.stateWithoutLock()
 	resp, err := u.wireConn.SendUpstreamCloseRequest(ctx, &message.UpstreamCloseRequest{
 		StreamID:            u.ID,
-		TotalDataPoints:     state.TotalDataPoints,
-		FinalSequenceNumber: state.LastIssuedSequenceNumber,
+		TotalDataPoints:     atomic.LoadUint64(&u.totalDataPoints),
+		FinalSequenceNumber: u.sequence.CurrentValue(),
 		ExtensionFields: &message.UpstreamCloseRequestExtensionFields{
 			CloseSession: opt.CloseSession,
 		},
